@@ -26,7 +26,8 @@ RULE = ("Hypothesis draws files (C01 generator, and C02 histories with drawn inh
         "alone (path and stream) must report the same objects, properties, types and lengths and refuse every data read "
         "on a non-empty channel. Non-trivial: >=2 segments or a metadata-less segment or padding or a truncated file."
         ' Files may contain a non-final segment whose last chunk is incomplete (then only the with/without-index '
-        'relation is asserted); writer programs may re-enter one writer object per session.')
+        'relation is asserted); writer programs may re-enter one writer object per session.'
+        ' tdms_version is part of the compared snapshot.')
 ASSUMPTIONS = [
     "vf/encode.py index twin = per segment 'TDSh' + lead-in[4:] + metadata (+ padding), as NI writes it",
     "zero-length channels may return empty arrays in index-only mode; the exception type of refused reads is free",
